@@ -1,6 +1,6 @@
 # -*- coding: utf-8 -*-
 """W-construct for the opportunistic-TLS application messages (MySQL, RDP, OpenVPN, PostgreSQL, LDAP)."""
-from vmon.gen.tls import Pair, pick_len, rbytes
+from vmon.gen.tls import Pair, edge_int, pick_len, rbytes
 from vmon.ref import opp as ref
 
 
@@ -81,7 +81,7 @@ def mysql_ssl_request(rng):
 def mysql_record(rng):
     _, mysql, _, _, _ = _mods()
     payload = rbytes(rng, rng.choice([0, 1, 255, 256, 65535, 65536, rng.randrange(3000)]))
-    number = rng.randrange(256)
+    number = edge_int(rng, 8)
     return Pair('mysql-packet', mysql.MySQLRecord(number, payload), ref.mysql_packet(number, payload))
 
 
@@ -125,8 +125,8 @@ def rdp_negotiation(rng):
 def openvpn(rng):
     _, _, ovpn, _, _ = _mods()
     session_id = rng.choice([0, 1, 2 ** 64 - 1, rng.getrandbits(64)])
-    acks = [rng.getrandbits(32) for _ in range(rng.choice([0, 0, 1, 2, 8, 255]))]
-    remote = rng.getrandbits(64) if acks else None
+    acks = [edge_int(rng, 32) for _ in range(rng.choice([0, 0, 1, 2, 8, 255]))]
+    remote = edge_int(rng, 64) if acks else None
     packet_id = rng.choice([0, 1, 2 ** 32 - 1, rng.getrandbits(32)])
     kind = rng.randrange(4)
     if kind == 0:
@@ -136,7 +136,7 @@ def openvpn(rng):
         label = 'openvpn-control-v1'
     elif kind == 1:
         if not acks:
-            acks, remote = [rng.getrandbits(32)], rng.getrandbits(64)
+            acks, remote = [edge_int(rng, 32)], edge_int(rng, 64)
         lib = ovpn.OpenVpnPacketAckV1(session_id, remote, acks)
         wire = ref.openvpn_packet(5, 0, session_id, acks, remote, None, b'')
         label = 'openvpn-ack-v1'
